@@ -215,6 +215,12 @@ def decide(prop, tier, seed):
         for s in r.get("stubs", []):
             trusted.add("kani stub: %s" % s)
 
+    # rule E11: a debug_assert! that Verus cannot prove under the havoc environment is a violation only when a Kani harness on the
+    # compiled code fails as well in this run (the assertion may rest on a type invariant the unit does not state): else undecided
+    if not any(f["engine"] == "kani" for f in failures):
+        for f in [f for f in failures if f["oid"].endswith(":debug-assert")]:
+            failures.remove(f)
+            undecided.append("verus obligation %s: a debug_assert! in the pasted body is not provable in the unit and no Kani harness reproduces a failure: undecided\n%s" % (f["oid"], f["output"][:1200]))
     # ------------------------------------------------------------------ verdict
     wall = time.time() - t0
     new = []
@@ -331,6 +337,10 @@ def decide_all(tier):
                 ps = list(ps) + ["C17"]
             oid = "kani:%s:[%s]" % (h.name, tag) if TAGGED(fc["description"]) else "kani:%s:safety" % h.name
             failed.append((oid, ps))
+    if not any(oid.startswith("kani:") for oid, _ in failed):
+        for x in [x for x in failed if x[0].endswith(":debug-assert")]:
+            failed.remove(x)
+            undecided.append("verus obligation %s: debug_assert! not provable in the unit, no Kani harness fails (rule E11): undecided" % x[0])
     seen = set()
     nviol = 0
     for oid, ps in failed:
